@@ -140,6 +140,11 @@ Proof.
   destruct l as [|x l]; [cbn; rewrite firstn_nil; reflexivity|]. cbn [Nat.add firstn skipn app]. f_equal. apply IH.
 Qed.
 
+Lemma firstz_app_exact {A} (a b : list A) : firstz (len a) (a ++ b) = a.
+Proof.
+  unfold firstz, len. rewrite Nat2Z.id. rewrite firstn_app, Nat.sub_diag, firstn_all. cbn. apply app_nil_r.
+Qed.
+
 (* --- the cursor's suffix ------------------------------------------------------------------------ *)
 Lemma suffix_wfl z : lx_wf z -> wfl (suffix z) /\ len (suffix z) = lx_len z - lpos z + 1.
 Proof.
